@@ -27,6 +27,9 @@ pub enum Fate {
     Trunc(u16),
     /// flip one bit: (byte index, bit); byte index counted from the end when negative
     Flip(i16, u8),
+    /// deliver now and deliver an identical copy again `ms` virtual milliseconds later
+    /// (a replay after the receiver's duplicate-detection window has moved on)
+    Replay(u32),
 }
 
 impl Fate {
@@ -162,6 +165,14 @@ impl SimNet {
             _ => {}
         }
         Self::push(&mut st, to, from, data.clone());
+        if let Fate::Replay(ms) = fate {
+            let (net, copy) = (self.clone(), data.clone());
+            tokio::spawn(async move {
+                tokio::time::sleep(std::time::Duration::from_millis(ms as u64)).await;
+                let mut st = net.0.lock().unwrap();
+                Self::push(&mut st, to, from, copy);
+            });
+        }
         if fate == Fate::Dup {
             Self::push(&mut st, to, from, data);
         }
